@@ -10,7 +10,7 @@ import types
 import z3
 
 from . import extract, seqops
-from .contract import Const, FixedList, Loop, MapOf, Obj, Optional, Root, Same, SeqOf, Spec, _Scalar
+from .contract import Const, FixedList, Loop, MapOf, Obj, Optional, Root, Same, SeqOf, Spec, SymDict, _Scalar
 from .core import Explorer, Infeasible, Path, PathEnd, PyRaise
 from .interp import Interp, OldNS
 from .interp_call import Frame
@@ -97,7 +97,13 @@ def make_symbolic(I: Interp, spec, hint, root=None, env=None):
         seq = SeqV(spec.kind, seqops.elem_kind_of_items(items) if items else None, items=items)
         return path.alloc(SeqCell(seq)) if spec.kind == "list" else seq
     if isinstance(spec, dict):
-        return path.alloc(DictCell({k: make_symbolic(I, s, f"{hint}[{k!r}]") for k, s in spec.items()}))
+        return path.alloc(DictCell({k: make_symbolic(I, s, f"{hint}[{k!r}]", root, env) for k, s in spec.items()}))
+    if isinstance(spec, SymDict):
+        from .values import SymKey
+        d = {}
+        for n, (ks, vs) in enumerate(spec.entries):
+            d[SymKey(make_symbolic(I, ks, f"{hint}.key{n}", root, env))] = make_symbolic(I, vs, f"{hint}.value{n}", root, env)
+        return path.alloc(DictCell(d))
     raise Unsupported(f"input spec {spec!r}")
 
 
